@@ -1,6 +1,39 @@
 """C14 - NAL unit framing conversions preserve the NAL unit sequence (AnnexB.tla, AnnexBTrace.tla)."""
 import os
+import re
+import subprocess
 import core
+
+
+def run_lister(ctx, records, q, stats):
+    """The shipped lister is a 'helper that lists NAL units' too: the built mp4ff-nallister runs on the Annex B form of the
+    unit streams of AnnexB.tla; the listed sequence of (type, length) must be the unit sequence of the model."""
+    nallister = ctx.build_repo_binary("./cmd/mp4ff-nallister", "mp4ff-nallister")
+    path = os.path.join(ctx.scratch, "lister_in.bin")
+    step = max(1, len(records) // (2500 if q else 20000))
+    item = re.compile(r"_(\d+) (?:\[[^\]]*\] )?\((\d+)B\)")
+    for i, e in enumerate(records):
+        if i % step != ctx.seed % step:
+            continue
+        codec = e["codec"]
+        with open(path, "wb") as f:
+            f.write(bytes(e["stream"]))
+        try:
+            p = subprocess.run([nallister, "-annexb", "-c", codec, path], capture_output=True, text=True, timeout=10, errors="replace")
+        except subprocess.TimeoutExpired:
+            ctx.report("lister/hang", "mp4ff-nallister does not return within 10 s", {"stream": bytes(e["stream"]).hex()})
+            continue
+        stats["runs"] += 1
+        if p.returncode != 0:
+            stats["tool_rejects"] += 1          # e.g. a unit of type SPS whose payload is not an SPS: the tool stops, nothing to judge
+            continue
+        listed = [(int(t), int(n)) for line in p.stdout.splitlines() if line.startswith("Sample ") for t, n in item.findall(line)]
+        want = [(t, len(u)) for t, u in zip(e["types"], e["units"])]
+        stats["judged"] += 1
+        if listed != want:
+            what = "lister/units-missing" if len(listed) < len(want) else "lister/sequence-differs"
+            ctx.report("%s/%s" % (what, codec), "mp4ff-nallister -annexb lists %s, the stream holds the units %s (type, length)" % (listed, want),
+                       {"codec": codec, "stream": bytes(e["stream"]).hex(), "listed": listed, "units": want})
 
 
 def run(ctx):
@@ -9,6 +42,7 @@ def run(ctx):
     ctx.build_harness()
     # 1. design check of the word-at-a-time trick at scaled word size: all streams up to the bound
     ctx.tlc_ok("AnnexB", "AnnexB_design_%s.cfg" % t, workers=12, timeout=2400, heap="12g")
+    lister = {"runs": 0, "judged": 0, "tool_rejects": 0}
     # 2. windows at every alignment for the real 8-byte word, 3. structured unit streams
     for cfg in ("AnnexB_windows_%s.cfg" % t, "AnnexB_units_avc_%s.cfg" % t, "AnnexB_units_hevc_%s.cfg" % t):
         r = ctx.tlc_ok("AnnexB", cfg, workers=12, timeout=2400, heap="12g")
@@ -16,6 +50,10 @@ def run(ctx):
             raise core.Machinery("nothing exported by " + cfg)
         inp = ctx.write_ndjson(cfg + ".ndjson", r.exported)
         core.absorb(ctx, ctx.harness(["c14-replay", "-in", inp]))
+        if "units" in cfg:
+            run_lister(ctx, [e for e in r.exported if e.get("mode") == "units"], q, lister)
+    if lister["judged"] < 500:
+        raise core.Machinery("only %d listings of mp4ff-nallister judged" % lister["judged"])
     # 4. traces of long random streams
     tr = os.path.join(ctx.specdir, "trace.ndjson")
     s3 = core.absorb(ctx, ctx.harness(["c14-drive", "-trace", tr, "-n", "300" if q else "3000"]))
@@ -23,6 +61,7 @@ def run(ctx):
     ctx.cov["bounds"] = {"design": "all streams over {00,01,other} up to length %d, word size 4" % (10 if q else 13),
                          "windows": "all windows over {00,01,other}^%d at alignments 0..15 inside filler and at the very end of the stream (every length mod 8), real word size 8" % (6 if q else 8),
                          "units": "1..%d NAL units, AVC and HEVC types, lengths around word boundaries, 3/4-byte start codes, zero/escape content classes" % (2 if q else 3),
+                         "lister": "the built mp4ff-nallister -annexb on %d unit streams; %d listings compared with the model's unit sequence (type, length), %d runs where the tool stops on a parameter set it cannot parse" % (lister["runs"], lister["judged"], lister["tool_rejects"]),
                          "trace_events": s3["extra"]["events"]}
     ctx.cov["rule"] = ("behaviours = reachable states of AnnexB.tla in windows/units mode; non-trivial = at least one start code; "
                        "distinct by content")
